@@ -35,8 +35,10 @@ fn spawn() -> (Child, ChildStdin, Receiver<String>) {
         for l in r.lines() {
             match l {
                 Ok(l) => {
-                    if tx.send(l).is_err() {
-                        break;
+                    if let Some(a) = l.strip_prefix("\x01R") {
+                        if tx.send(a.to_string()).is_err() {
+                            break;
+                        }
                     }
                 }
                 Err(_) => break,
